@@ -71,14 +71,18 @@ func init() {
 	})
 	register(&Property{
 		ID:    "C31",
-		Units: []string{"fasthttp.ParseIPv4", "fasthttp.parseIPv4Octet", "fasthttp.AppendIPv4", "fasthttp.AppendUint"},
+		Units: []string{"fasthttp.ParseIPv4", "fasthttp.parseIPv4Octet", "fasthttp.AppendIPv4", "fasthttp.AppendUint", "fasthttp.parseRFC1123DateGMT", "fasthttp.ParseHTTPDate", "fasthttp.AppendHTTPDate", "fasthttp.isWeekday3", "fasthttp.parseMonth3", "fasthttp.validateIPv6Literal", "fasthttp.parseIPv6Hextets", "fasthttp.validIPv4", "time.Parse", "time.parse", "time.Date", "net/netip.ParseAddr", "net/netip.parseIPv6", "net/netip.parseIPv4Fields"},
 		Runs: []Run{
 			{Pkg: "fasthttp", Func: "vhC31Octet"},
 			{Pkg: "fasthttp", Func: "vhC31ParseIPv4", Quick: map[string]int{"maxIP": 9}, Thorough: map[string]int{"maxIP": 10}},
 			{Pkg: "fasthttp", Func: "vhC31IPv4RoundTrip", Quick: map[string]int{"allOctets": 0}, PathCap: 400000},
+			{Pkg: "fasthttp", Func: "vhC31HTTPDateFastPath"},
+			{Pkg: "fasthttp", Func: "vhC31HTTPDateRoundTrip"},
+			{Pkg: "fasthttp", Func: "vhC31IPv6Literal", Quick: map[string]int{"window": 1}, Thorough: map[string]int{"window": 2}, PathCap: 1500000},
 		},
 		Assume: []string{
-			"only the IPv4 clauses of C31 are decided; the RFC 1123 date fast path vs time.Parse and the bracketed-IPv6 host vs net/netip clauses are outside this check (time.Parse / netip.ParseAddr are not interpreted)",
+			"HTTP dates: the 29-byte input is \"Mon, 02 Jan 2006 15:04:05 GMT\" with one of 15 byte groups (weekday, each separator, day, month, the two low year digits, hour, minute, second, zone) replaced by arbitrary bytes; the fast parser and the standard library's time.Parse / time.Date (interpreted from their own SSA) run on the same symbolic input; several groups symbolic at once and the two high year digits are outside; the AppendHTTPDate round trip is checked on a table of 7 boundary instants only (formatting a symbolic instant needs 64-bit division by calendar constants)",
+			"IPv6 literals: 10 address templates (::, ::1, 1::, eight hextets, inner ::, IPv4-mapped and other IPv4-embedded forms, a zone) with a window of `window` arbitrary bytes overwritten or inserted at every position, compared with net/netip.ParseAddr interpreted from the standard library's SSA; wider windows are outside",
 			"ParseIPv4 inputs are arbitrary byte strings of length ≤ maxIP (a full 15-byte dotted quad is outside the bound; single octets of every length ≤ 4 are covered by vhC31Octet)",
 		},
 	})
